@@ -104,6 +104,9 @@ class LogRef:
         self.nr = int(num_reserved)
         self.maxval = int(maxval)
         self._dec = {}
+        # at c == num_reserved the advance probability is base^0 = 1: whether a draw is spent
+        # on that certain step is not part of the law (the pinned tree spends one)
+        self.draw_at_nr = True
 
     def decode(self, c: int) -> float:
         d = self._dec.get(c)
@@ -122,7 +125,7 @@ class LogRef:
         return self.base ** (-float(c - self.nr))
 
     def walk(self, c: int, value: int, draws, ptr: int):
-        """Unit-add walk. `draws` is the batch (sequence of 2048 floats); ptr is the
+        """Unit-add walk. `draws` is the batch (the tree's batch length; 2048 on the pinned tree); ptr is the
         number of draws already consumed from it. Returns (counter, ptr, used, ambiguous,
         needs_refill). Stops (needs_refill=True) if the batch is exhausted before the
         walk ends so the caller can install the refilled batch."""
@@ -132,11 +135,11 @@ class LogRef:
         while i < value:
             if c >= self.maxval:
                 break
-            if c < self.nr:
+            if c < self.nr or (c == self.nr and not self.draw_at_nr):
                 c += 1
                 i += 1
                 continue
-            if ptr >= 2048:
+            if ptr >= len(draws):
                 return c, ptr, used, ambiguous, value - i
             u = draws[ptr]
             ptr += 1
